@@ -1,4 +1,5 @@
 import FtdcVerif.Model.Views
+import FtdcVerif.Lemmas.Csv
 /-!
 # C02 — all reader views agree and name every metric by its full path
 
@@ -110,6 +111,239 @@ theorem keys_are_full_paths (d : BDoc) :
     (metricsOf d).map Metric.key = (leafPaths d).map joinDot :=
   keysElems d [] [] (Or.inl ⟨rfl, rfl⟩)
 
+/-! ### distinct leaves never share a key
+
+Hypothesis `KeysOk`: field names contain no `.` and the field names of one (sub-)document are
+pairwise distinct (array members are named by their position, whatever their stored key). -/
+
+def DotFree (k : Bytes) : Prop := ∀ b ∈ k, b ≠ dot
+
+def docKeys : BDoc → List Bytes
+  | .nil => []
+  | .cons k _ r => k :: docKeys r
+
+mutual
+def KeysOkVal : BVal → Prop
+  | .doc d => KeysOk d
+  | .arr d => KeysOkArr d
+  | _ => True
+def KeysOk : BDoc → Prop
+  | .nil => True
+  | .cons k v r => DotFree k ∧ k ∉ docKeys r ∧ KeysOkVal v ∧ KeysOk r
+def KeysOkArr : BDoc → Prop
+  | .nil => True
+  | .cons _ v r => KeysOkVal v ∧ KeysOkArr r
+end
+
+theorem decimal_dotFree (n : Nat) : DotFree (decimal n) := by
+  intro b hb
+  have := (parse_decimal n).2.2 b hb
+  unfold IsDigit at this
+  simp [dot]; omega
+
+theorem decimal_inj {i j : Nat} (h : decimal i = decimal j) : i = j := by
+  have h1 := (parse_decimal i).1
+  have h2 := (parse_decimal j).1
+  rw [h, h2] at h1
+  exact (Option.some.inj h1).symm
+
+/-- splitting at the first dot is unique -/
+theorem dot_split_inj : ∀ (a b x y : Bytes), DotFree a → DotFree b → a ++ dot :: x = b ++ dot :: y → a = b ∧ x = y
+  | [], [], x, y, _, _, h => by simpa using h
+  | [], c :: b, x, y, _, hb, h => by
+    simp only [List.nil_append, List.cons_append, List.cons.injEq] at h
+    exact absurd h.1.symm (hb c (List.mem_cons_self ..))
+  | c :: a, [], x, y, ha, _, h => by
+    simp only [List.nil_append, List.cons_append, List.cons.injEq] at h
+    exact absurd h.1 (ha c (List.mem_cons_self ..))
+  | c :: a, e :: b, x, y, ha, hb, h => by
+    simp only [List.cons_append, List.cons.injEq] at h
+    obtain ⟨r1, r2⟩ := dot_split_inj a b x y (fun z hz => ha z (List.mem_cons_of_mem _ hz))
+      (fun z hz => hb z (List.mem_cons_of_mem _ hz)) h.2
+    exact ⟨by rw [h.1, r1], r2⟩
+
+theorem joinDot_cons2 (a b : Bytes) (r : List Bytes) : joinDot (a :: b :: r) = a ++ dot :: joinDot (b :: r) := by
+  simp [joinDot]
+
+/-- **dot-joining is injective on non-empty lists of dot-free segments** -/
+theorem joinDot_inj : ∀ (l1 l2 : List Bytes), l1 ≠ [] → l2 ≠ [] → (∀ s ∈ l1, DotFree s) → (∀ s ∈ l2, DotFree s) →
+    joinDot l1 = joinDot l2 → l1 = l2
+  | [], _, h, _, _, _, _ => absurd rfl h
+  | _, [], _, h, _, _, _ => absurd rfl h
+  | [a], [b], _, _, _, _, e => by simpa [joinDot] using e
+  | [a], b :: c :: r, _, _, h1, _, e => by
+    rw [joinDot_cons2] at e
+    simp only [joinDot] at e
+    have : dot ∈ a := by rw [e]; simp
+    exact absurd rfl (h1 a (List.mem_cons_self ..) dot this)
+  | a :: c :: r, [b], _, _, _, h2, e => by
+    rw [joinDot_cons2] at e
+    simp only [joinDot] at e
+    have : dot ∈ b := by rw [← e]; simp
+    exact absurd rfl (h2 b (List.mem_cons_self ..) dot this)
+  | a :: c :: r, b :: e' :: r', _, _, h1, h2, e => by
+    rw [joinDot_cons2, joinDot_cons2] at e
+    obtain ⟨r1, r2⟩ := dot_split_inj a b _ _ (h1 a (List.mem_cons_self ..)) (h2 b (List.mem_cons_self ..)) e
+    have := joinDot_inj (c :: r) (e' :: r') (by simp) (by simp)
+      (fun s hs => h1 s (List.mem_cons_of_mem _ hs)) (fun s hs => h2 s (List.mem_cons_of_mem _ hs)) r2
+    rw [r1, this]
+
+mutual
+theorem pathsVal_pre : (v : BVal) → ∀ (segs p : List Bytes), p ∈ leafPathsVal segs v → ∃ t, p = segs ++ t
+  | .doc d, segs, p, h => by
+    obtain ⟨k, t, _, e⟩ := pathsElems_pre d segs p (by simpa [leafPathsVal] using h)
+    exact ⟨k :: t, e⟩
+  | .arr d, segs, p, h => by
+    obtain ⟨j, t, _, e⟩ := pathsArr_pre d segs 0 p (by simpa [leafPathsVal] using h)
+    exact ⟨decimal j :: t, e⟩
+  | .timestamp _ _, segs, p, h => by
+    simp only [leafPathsVal, List.mem_cons, List.not_mem_nil, or_false] at h
+    rcases h with rfl | rfl
+    · exact ⟨[], by simp⟩
+    · exact ⟨[incSeg], rfl⟩
+  | .other _ _, segs, p, h => by simp [leafPathsVal] at h
+  | .double _, segs, p, h => by simp [leafPathsVal] at h; exact ⟨[], by simp [h]⟩
+  | .bool _, segs, p, h => by simp [leafPathsVal] at h; exact ⟨[], by simp [h]⟩
+  | .datetime _, segs, p, h => by simp [leafPathsVal] at h; exact ⟨[], by simp [h]⟩
+  | .int32 _, segs, p, h => by simp [leafPathsVal] at h; exact ⟨[], by simp [h]⟩
+  | .int64 _, segs, p, h => by simp [leafPathsVal] at h; exact ⟨[], by simp [h]⟩
+theorem pathsElems_pre : (d : BDoc) → ∀ (segs p : List Bytes), p ∈ leafPathsElems segs d →
+    ∃ k t, k ∈ docKeys d ∧ p = segs ++ k :: t
+  | .nil, _, _, h => by simp [leafPathsElems] at h
+  | .cons k v r, segs, p, h => by
+    simp only [leafPathsElems, List.mem_append] at h
+    rcases h with h | h
+    · obtain ⟨t, e⟩ := pathsVal_pre v (segs ++ [k]) p h
+      exact ⟨k, t, by simp [docKeys], by simp [e]⟩
+    · obtain ⟨k', t, hk, e⟩ := pathsElems_pre r segs p h
+      exact ⟨k', t, by simp [docKeys, hk], e⟩
+theorem pathsArr_pre : (d : BDoc) → ∀ (segs : List Bytes) (idx : Nat) (p : List Bytes), p ∈ leafPathsArr segs idx d →
+    ∃ j t, idx ≤ j ∧ p = segs ++ decimal j :: t
+  | .nil, _, _, _, h => by simp [leafPathsArr] at h
+  | .cons _ v r, segs, idx, p, h => by
+    simp only [leafPathsArr, List.mem_append] at h
+    rcases h with h | h
+    · obtain ⟨t, e⟩ := pathsVal_pre v (segs ++ [decimal idx]) p h
+      exact ⟨idx, t, Nat.le_refl _, by simp [e]⟩
+    · obtain ⟨j, t, hj, e⟩ := pathsArr_pre r segs (idx + 1) p h
+      exact ⟨j, t, by omega, e⟩
+end
+
+theorem append_cons_inj {segs : List Bytes} {a b : Bytes} {s t : List Bytes}
+    (h : segs ++ a :: s = segs ++ b :: t) : a = b := by
+  have := List.append_cancel_left h
+  simpa using (List.cons.inj this).1
+
+mutual
+theorem nodupVal : (v : BVal) → KeysOkVal v → ∀ segs, (leafPathsVal segs v).Nodup
+  | .doc d, h, segs => by simpa [leafPathsVal] using nodupElems d h segs
+  | .arr d, h, segs => by simpa [leafPathsVal] using nodupArr d h segs 0
+  | .timestamp _ _, _, segs => by
+    simp only [leafPathsVal, List.nodup_cons, List.mem_cons, List.not_mem_nil, or_false, not_false_eq_true,
+      List.nodup_nil, and_true]
+    intro e
+    have := congrArg List.length e
+    simp at this
+  | .other _ _, _, _ => by simp [leafPathsVal]
+  | .double _, _, _ => by simp [leafPathsVal]
+  | .bool _, _, _ => by simp [leafPathsVal]
+  | .datetime _, _, _ => by simp [leafPathsVal]
+  | .int32 _, _, _ => by simp [leafPathsVal]
+  | .int64 _, _, _ => by simp [leafPathsVal]
+theorem nodupElems : (d : BDoc) → KeysOk d → ∀ segs, (leafPathsElems segs d).Nodup
+  | .nil, _, _ => by simp [leafPathsElems]
+  | .cons k v r, h, segs => by
+    obtain ⟨_, hk, hv, hr⟩ := h
+    simp only [leafPathsElems]
+    rw [List.nodup_append]
+    refine ⟨nodupVal v hv _, nodupElems r hr _, ?_⟩
+    intro a ha b hb e
+    obtain ⟨t, e1⟩ := pathsVal_pre v (segs ++ [k]) a ha
+    obtain ⟨k', t', hk', e2⟩ := pathsElems_pre r segs b hb
+    rw [e1, e2, List.append_assoc] at e
+    have : k = k' := append_cons_inj (segs := segs) (s := t) (t := t') (by simpa using e)
+    exact hk (this ▸ hk')
+theorem nodupArr : (d : BDoc) → KeysOkArr d → ∀ segs idx, (leafPathsArr segs idx d).Nodup
+  | .nil, _, _, _ => by simp [leafPathsArr]
+  | .cons _ v r, h, segs, idx => by
+    obtain ⟨hv, hr⟩ := h
+    simp only [leafPathsArr]
+    rw [List.nodup_append]
+    refine ⟨nodupVal v hv _, nodupArr r hr _ _, ?_⟩
+    intro a ha b hb e
+    obtain ⟨t, e1⟩ := pathsVal_pre v (segs ++ [decimal idx]) a ha
+    obtain ⟨j, t', hj, e2⟩ := pathsArr_pre r segs (idx + 1) b hb
+    rw [e1, e2, List.append_assoc] at e
+    have : decimal idx = decimal j := append_cons_inj (segs := segs) (s := t) (t := t') (by simpa using e)
+    have := decimal_inj this
+    omega
+end
+
+mutual
+theorem segsVal : (v : BVal) → KeysOkVal v → ∀ (segs p : List Bytes), (∀ s ∈ segs, DotFree s) →
+    p ∈ leafPathsVal segs v → ∀ s ∈ p, DotFree s
+  | .doc d, h, segs, p, hs, hp => segsElems d h segs p hs (by simpa [leafPathsVal] using hp)
+  | .arr d, h, segs, p, hs, hp => segsArr d h segs 0 p hs (by simpa [leafPathsVal] using hp)
+  | .timestamp _ _, _, segs, p, hs, hp => by
+    simp only [leafPathsVal, List.mem_cons, List.not_mem_nil, or_false] at hp
+    rcases hp with rfl | rfl
+    · exact hs
+    · intro s hs'
+      simp only [List.mem_append, List.mem_cons, List.not_mem_nil, or_false] at hs'
+      rcases hs' with h | rfl
+      · exact hs s h
+      · intro b hb; simp [incSeg] at hb; rcases hb with rfl | rfl | rfl <;> simp [dot]
+  | .other _ _, _, _, _, _, hp => by simp [leafPathsVal] at hp
+  | .double _, _, segs, p, hs, hp => by simp [leafPathsVal] at hp; rw [hp]; exact hs
+  | .bool _, _, segs, p, hs, hp => by simp [leafPathsVal] at hp; rw [hp]; exact hs
+  | .datetime _, _, segs, p, hs, hp => by simp [leafPathsVal] at hp; rw [hp]; exact hs
+  | .int32 _, _, segs, p, hs, hp => by simp [leafPathsVal] at hp; rw [hp]; exact hs
+  | .int64 _, _, segs, p, hs, hp => by simp [leafPathsVal] at hp; rw [hp]; exact hs
+theorem segsElems : (d : BDoc) → KeysOk d → ∀ (segs p : List Bytes), (∀ s ∈ segs, DotFree s) →
+    p ∈ leafPathsElems segs d → ∀ s ∈ p, DotFree s
+  | .nil, _, _, _, _, hp => by simp [leafPathsElems] at hp
+  | .cons k v r, h, segs, p, hs, hp => by
+    obtain ⟨hk, _, hv, hr⟩ := h
+    simp only [leafPathsElems, List.mem_append] at hp
+    rcases hp with hp | hp
+    · exact segsVal v hv (segs ++ [k]) p (by
+        intro s hs'
+        simp only [List.mem_append, List.mem_cons, List.not_mem_nil, or_false] at hs'
+        rcases hs' with h' | rfl
+        · exact hs s h'
+        · exact hk) hp
+    · exact segsElems r hr segs p hs hp
+theorem segsArr : (d : BDoc) → KeysOkArr d → ∀ (segs : List Bytes) (idx : Nat) (p : List Bytes),
+    (∀ s ∈ segs, DotFree s) → p ∈ leafPathsArr segs idx d → ∀ s ∈ p, DotFree s
+  | .nil, _, _, _, _, _, hp => by simp [leafPathsArr] at hp
+  | .cons _ v r, h, segs, idx, p, hs, hp => by
+    obtain ⟨hv, hr⟩ := h
+    simp only [leafPathsArr, List.mem_append] at hp
+    rcases hp with hp | hp
+    · exact segsVal v hv (segs ++ [decimal idx]) p (by
+        intro s hs'
+        simp only [List.mem_append, List.mem_cons, List.not_mem_nil, or_false] at hs'
+        rcases hs' with h' | rfl
+        · exact hs s h'
+        · exact decimal_dotFree idx) hp
+    · exact segsArr r hr segs (idx + 1) p hs hp
+end
+
+/-- **Distinct leaves never share a key**: the keys of the series of a chunk are pairwise distinct,
+for every reference document whose field names are dot-free and distinct within each document. -/
+theorem keys_are_distinct (d : BDoc) (h : KeysOk d) : ((metricsOf d).map Metric.key).Nodup := by
+  rw [keys_are_full_paths]
+  have hn := nodupElems d h []
+  unfold leafPaths
+  unfold List.Nodup at hn ⊢
+  rw [List.pairwise_map]
+  apply List.Pairwise.imp_of_mem _ hn
+  intro a b ha hb hab e
+  obtain ⟨ka, ta, _, ea⟩ := pathsElems_pre d [] a ha
+  obtain ⟨kb, tb, _, eb⟩ := pathsElems_pre d [] b hb
+  exact hab (joinDot_inj a b (by rw [ea]; simp) (by rw [eb]; simp)
+    (segsElems d h [] a (by simp) ha) (segsElems d h [] b (by simp) hb) e)
+
 /-- one series per metric leaf: the number of decoded series is the number of extracted values -/
 theorem one_series_per_leaf_doc : (d : BDoc) → ∀ path, (metricsElems path d).length = (extractDoc d).length := by
   intro d
@@ -162,5 +396,15 @@ theorem series_view_keys (c : Chunk) : (c.series.toList.map (·.1)) = c.metrics.
 example : (metricsOf (.cons [97] (.doc (.cons [98] (.doc (.cons [99] (.int64 1#64) .nil))
       (.cons [100] (.doc (.cons [99] (.int64 2#64) .nil)) .nil))) .nil)).map Metric.key
     = [[97, 46, 98, 46, 99], [97, 46, 100, 46, 99]] := by decide
+
+/-! non-vacuity of `keys_are_distinct`, and why its hypothesis is needed -/
+example : KeysOk (.cons [97] (.doc (.cons [98] (.int64 1#64) .nil))
+    (.cons [99] (.arr (.cons [48] (.int64 1#64) (.cons [49] (.timestamp 2#32 3#32) .nil))) .nil)) := by
+  simp [KeysOk, KeysOkVal, KeysOkArr, DotFree, docKeys, dot]
+
+/-- with a dot inside a field name two distinct leaves do share a key: `{"a.b": 1, a: {b: 2}}` -/
+example : (metricsOf (.cons [97, 46, 98] (.int64 1#64)
+    (.cons [97] (.doc (.cons [98] (.int64 2#64) .nil)) .nil))).map Metric.key = [[97, 46, 98], [97, 46, 98]] := by
+  decide
 
 end Ftdc.Props.C02
